@@ -23,6 +23,11 @@ def norm(v):
             # subclasses (a caller's str / int subclass) by value - by the base type's own
             # conversion, whatever __str__ / __int__ the subclass defines
             return v if type(v) is t else conv(v)
+    if hasattr(type(v), "__index__"):
+        try:
+            return int(v.__index__())     # an integer-like object (numpy integer, a caller's own class) by value
+        except Exception:
+            pass
     return ("obj", type(v).__name__, repr(v))
 
 
